@@ -1,0 +1,62 @@
+//! Verification hooks. Compiled only with `--cfg nundb_verif`; with the guard off
+//! this module does not exist and no call site is compiled.
+use std::cell::RefCell;
+use std::sync::Mutex;
+
+thread_local! {
+    static DATA_DIR: RefCell<Option<String>> = RefCell::new(None);
+}
+
+lazy_static::lazy_static! {
+    static ref GLOBAL_DATA_DIR: Mutex<Option<String>> = Mutex::new(None);
+    static ref YIELD_HOOK: Mutex<Option<Box<dyn Fn(&'static str) + Send + Sync>>> = Mutex::new(None);
+    static ref CRASH_HOOK: Mutex<Option<Box<dyn Fn(&'static str) + Send + Sync>>> = Mutex::new(None);
+}
+
+/// Data directory override for the calling thread (None = fall back to the global
+/// override, then to NUN_DBS_DIR).
+pub fn set_data_dir(dir: Option<String>) {
+    DATA_DIR.with(|d| *d.borrow_mut() = dir);
+}
+
+pub fn set_global_data_dir(dir: Option<String>) {
+    *GLOBAL_DATA_DIR.lock().unwrap() = dir;
+}
+
+pub fn data_dir() -> Option<String> {
+    let local = DATA_DIR.with(|d| d.borrow().clone());
+    match local {
+        Some(d) => Some(d),
+        None => GLOBAL_DATA_DIR.lock().unwrap().clone(),
+    }
+}
+
+pub fn set_yield_hook(f: Option<Box<dyn Fn(&'static str) + Send + Sync>>) {
+    *YIELD_HOOK.lock().unwrap() = f;
+}
+
+/// Called before lock acquisitions / inside wait loops; a no-op unless a harness
+/// installed a scheduler.
+pub fn yield_point(site: &'static str) {
+    let guard = YIELD_HOOK.lock().unwrap();
+    if let Some(f) = guard.as_ref() {
+        let f: &(dyn Fn(&'static str) + Send + Sync) = f.as_ref();
+        // Call without holding the registry lock so that a parked thread does not
+        // block the others.
+        let ptr = f as *const (dyn Fn(&'static str) + Send + Sync);
+        drop(guard);
+        unsafe { (*ptr)(site) }
+    }
+}
+
+pub fn set_crash_hook(f: Option<Box<dyn Fn(&'static str) + Send + Sync>>) {
+    *CRASH_HOOK.lock().unwrap() = f;
+}
+
+/// Called around file operations of the snapshot / oplog paths.
+pub fn crash_point(site: &'static str) {
+    let guard = CRASH_HOOK.lock().unwrap();
+    if let Some(f) = guard.as_ref() {
+        f(site)
+    }
+}
